@@ -561,7 +561,7 @@ where
 
 pub fn c06(ctx: &Ctx) {
 	let mut rep = Report::new("C06");
-	let rounds = ctx.budget(2500, 40_000);
+	let rounds = ctx.budget(2500, 120_000);
 	let mut job = 0usize;
 	let mut mine = |job: &mut usize| {
 		let m = *job % ctx.nshards == ctx.shard;
@@ -688,7 +688,7 @@ fn max_val(ty: &Ty, depth: u32) -> Option<Val> {
 
 pub fn c13(ctx: &Ctx) {
 	let mut rep = Report::new("C13");
-	let n = ctx.budget(4000, 100_000);
+	let n = ctx.budget(4000, 400_000);
 	for ops in ctx.my_types() {
 		let fixed = ops.dec.as_ref().and_then(|d| (d.fixed)());
 		if ops.mel.is_none() && fixed.is_none() {
@@ -989,7 +989,7 @@ pub fn c15(ctx: &Ctx) {
 		finish(ctx, &rep);
 		return;
 	}
-	let rounds = ctx.budget(1500, 30_000);
+	let rounds = ctx.budget(1500, 120_000);
 	let mut job = 0usize;
 	macro_rules! items {
 		($($t:ty),*) => {$(
@@ -1105,7 +1105,7 @@ where
 
 pub fn c16(ctx: &Ctx) {
 	let mut rep = Report::new("C16");
-	let n = ctx.budget(1500, 30_000);
+	let n = ctx.budget(1500, 600_000);
 	let mut rng = ctx.rng_for("c16");
 	for round in 0..n {
 		if round as usize % ctx.nshards != ctx.shard {
